@@ -273,10 +273,11 @@ reg(Spec("C15", "Props/C15.v", harness="auditproc", overlay=AUDITPROC_OVERLAY,
     args_quick=["-n", "150"], args_thorough=["-n", "2000"], args_search=["-n", "1200"],
     assumptions=[
       "auparse.ParseLogLine, aucoalesce.CoalesceMessages/ResolveIDs, the After comparison and the correlator are oracles (explicit arguments of every theorem); level 2 instantiates the correlator with Model/Tracker.v",
-      "go-libaudit's eventList (Put/CleanUp/Clear, event.Add, lost-gap arithmetic) is hand-modelled and tied by correspondence only; the sequence roll-over rule of sequenceNumSlice.Less is left out",
+      "go-libaudit's reassembler.go (eventList.Put/CleanUp/Clear/remove, event.Add/IsExpired, sequenceNumSlice.Less, abs, Reassembler.PushMessage/Maintain/Close/callback) is translated on every run from the module /repo/go.mod pins (tools/go2v/reassemblergen.go resolves require+replace to the module cache, vendor/ or a local directory and compares the directory's h1 hash with go.sum; Gen/ReassemblerProg.v, IR and interpreter Model/ReassemblerIR.v) and proved equal to the model's put / cleanup / rstep for all inputs (C15_reassembler_from_source_*), under the WINDOW CONDITION: sort.Sort has a defined result only when Less is a strict total order on the sequence numbers present; that holds, with Less = the plain order, for numbers pairwise closer than 2^24 (the plain-order model of the C15 theorems) and, with the order-generic model rstep_by seq_less, for two such clusters further apart than 2^24-1 (e.g. either side of the 2^32 wrap); it fails in general (Less is not transitive: 0 < 2^24-1 < 2^25-2 < 0), and such streams are outside both the theorems and the generated cases",
+      "trusted for the reassembler tie: the translator's reading of the constructs it accepts (fails closed otherwise), the interpreter's heap / map / mutex / uint32 semantics, sort.Sort's contract as stated in Model/ReassemblerIR.v, one clock reading per PushMessage/Maintain call; both also exercised by the correspondence check, whose level-1 modes wrap and far run the real library across the 2^32 wrap and on clusters 2^24 apart against rstep_by seq_less",
       "time is an input (value of time.Now() per call); real expiry is exercised only with a 60 ms timeout and 150 ms pauses",
       "Read's main loop is modelled as polling after every step of the parser/maintain goroutines (eager select); the both-errors-pending race and what the parser goroutine does after Read returned (C13) are not modelled",
       "Read (set-up, deferred calls, the five select arms), parseAuditLogs, maintainReassemblerLoop, ReassemblyComplete and EventsLost are translated from the source on every run (Gen/AuditProg.v, IR and interpreter Model/AuditIR.v) and proved equal to the model for all inputs and oracles (C15_processor_from_source_*); trusted there: the translator's reading of the constructs it accepts (it fails closed otherwise) and the interpreter's stated contracts of the library calls (ResolveIDs resolves in place, NewReassembler succeeds, Maintain fails iff closed, a select without default takes the arm the environment chooses)",
     ],
-    modelled=["processors/auditd/auditd.go (Read, parseAuditLogs, maintainReassemblerLoop: translated, tools/go2v/auditgen.go)", "processors/auditd/reassembler_callback.go (translated)", "go-libaudit reassembler.go (hand-modelled)"],
+    modelled=["processors/auditd/auditd.go (Read, parseAuditLogs, maintainReassemblerLoop: translated, tools/go2v/auditgen.go)", "processors/auditd/reassembler_callback.go (translated)", "go-libaudit reassembler.go (third-party, pinned: translated, tools/go2v/reassemblergen.go)"],
     extra_targets=["Model/AuditProcCheck.vo"]))
